@@ -34,6 +34,10 @@ def skeletons():
         'group-seq': [('s', alt(seq(group(seq(a, b)), c), seq(a, b, b)))],
         'choice-in-closure': [('s', seq(star(alt(seq(a, b), seq(a, c))), a, a))],
         'choice-in-optional': [('s', seq(opt(alt(seq(a, b), seq(b, c))), a))],
+        # an optional whose whole body is another optional / closure / join: Optional.optimized() rewrites these shapes
+        'optional-of-closure': [('s', seq(opt(star(seq(a, b))), a, c))],
+        'optional-of-optional': [('s', seq(opt(opt(seq(a, b))), a, c))],
+        'optional-of-join': [('s', alt(seq(opt(join(c, seq(a, b), False, True)), a), seq(a, b, c, a, a)))],
     }
 
 
@@ -104,7 +108,7 @@ def run(tier):
     from ..pegcheck import machine_check
     mstep = 3 if tier == 'quick' else 1
     machine_check(ck, items[ck.seed % mstep::mstep], 'C05 cut placements', maxlen=3 if tier == 'quick' else 4, maxtexts=40 if tier == 'quick' else 200)
-    ck.cov['rule'] = (f'{len(items)} grammars = 18 skeletons (choice, choice in group, optional, closure, positive closure, nested '
+    ck.cov['rule'] = (f'{len(items)} grammars = 21 skeletons (optional of closure / optional / join, choice, choice in group, optional, closure, positive closure, nested '
                       'closure, join, positive join, gather, rule body, rule called from choice/closure, choices in closure/optional) '
                       'with a cut inserted at every position of every sequence (and the cut-free skeleton) x all texts over {a,b,c} '
                       f'up to length {5 if tier == "quick" else 6}; non-trivial = accepted case with distinct (grammar, AST, end)')
